@@ -16,15 +16,20 @@ import (
 )
 
 var cfgs = refrv.AllCfgs()
-var parsers = map[refrv.Cfg]riscv.Parser{}
+var parsers = map[refrv.Cfg][2]riscv.Parser{}
+var parserCalls int
 
+// parser returns the product parser of a configuration; for configurations with both
+// extensions the calls alternate between a parser built with (M, A) and one built with
+// (A, M): a configuration is a set of extensions.
 func parser(c refrv.Cfg) riscv.Parser {
 	p, ok := parsers[c]
 	if !ok {
-		p = rvgen.Parser(c)
+		p = [2]riscv.Parser{rvgen.ParserOrder(c, false), rvgen.ParserOrder(c, true)}
 		parsers[c] = p
 	}
-	return p
+	parserCalls++
+	return p[parserCalls%2]
 }
 
 // Work layout (case index -> job)
